@@ -1,12 +1,13 @@
 #!/bin/sh
-# usage: tools/try_benign.sh <patch> : apply a behaviour-preserving patch to /repo, run every quick check, report alarms / undecided, undo
-P="$1"
-git -C /repo apply "$P" || { echo "patch does not apply: $P"; exit 3; }
+# usage: tools/try_benign.sh <patch> [repo-path] : apply a behaviour-preserving patch to the repo (default /repo; a scratch worktree for
+# parallel runs), run every quick check, report alarms / undecided, undo
+P="$1"; R="${2:-/repo}"
+git -C $R apply "$P" || { echo "patch does not apply: $P"; exit 3; }
 V=0; U=0
 for c in C01 C02 C03 C04 C05 C06 C07 C08 C09 C10 C11 C12 C13 C14 C15 C16 C17 C18 C20; do
-  out=$(/verif/check $c 2>&1 | grep -v "^KNOWN"); rc=$?
+  out=$(/verif/check $c --repo $R 2>&1 | grep -v "^KNOWN"); rc=$?
   if echo "$out" | grep -q "^VIOLATION"; then V=$((V+1)); echo "FALSE ALARM $c: $(echo "$out" | grep '^VIOLATION' | head -2 | cut -c1-200)"; fi
   if echo "$out" | grep -q "^UNDECIDED"; then U=$((U+1)); echo "undecided $c: $(echo "$out" | grep '^UNDECIDED' | head -1 | cut -c1-220)"; fi
 done
 echo "== $P: false alarms=$V undecided=$U"
-git -C /repo checkout -- .
+git -C $R checkout -- .
